@@ -318,7 +318,47 @@ pub fn c02_from(c: &mut Ctx, a: f64) {
     }
 }
 
+/// Systematic sweep: single-word operands with nb1 / nb2 significant bits whose leading bits are
+/// `gap` binades apart, for every (nb1, nb2, gap): where "the result is exact" fast paths are off by one.
+pub fn short_sig_sweep(c: &mut Ctx, mut f: impl FnMut(&mut Ctx, f64, f64)) {
+    let mut idx = 0u64;
+    for nb1 in 1..=30u32 {
+        for nb2 in 1..=30u32 {
+            for gap in 0..=64i64 {
+                idx += 1;
+                if idx % c.nshards != c.shard {
+                    continue;
+                }
+                let e1 = c.rng.range(-300, 300);
+                for pat in 0..3 {
+                    let m = |r: &mut Rng, nb: u32| -> f64 {
+                        let top = 1u64 << (nb - 1);
+                        (match pat {
+                            0 => (1u64 << nb) - 1,
+                            1 => top | 1,
+                            _ => top | (r.next() & (top - 1)) | 1,
+                        }) as f64
+                    };
+                    let x1 = m(&mut c.rng, nb1) * pow2(e1 - (nb1 as i64 - 1));
+                    let x2 = m(&mut c.rng, nb2) * pow2(e1 - gap - (nb2 as i64 - 1));
+                    let sg = if c.rng.coin() { 1.0 } else { -1.0 };
+                    f(c, x1, sg * x2);
+                    f(c, sg * x2, x1);
+                }
+            }
+        }
+    }
+    c.count("short_significand_sweep_done");
+}
+
 pub fn c02(c: &mut Ctx) {
+    short_sig_sweep(c, |c, x, y| {
+        c02_add_sub(c, x, y);
+        c02_mul(c, x, y);
+        if x != 0.0 && y != 0.0 && x.abs() >= pow2(-480) && x.abs() <= pow2(480) && y.abs() >= pow2(-480) && y.abs() <= pow2(480) {
+            c02_div(c, x, y);
+        }
+    });
     let n = c.budget(8_000_000, 800_000_000) / 5;
     let mut best: Vec<(f64, f64, f64)> = Vec::new();
     for _ in 0..n {
@@ -613,6 +653,10 @@ pub fn c03_sum(c: &mut Ctx) {
 }
 
 pub fn c03(c: &mut Ctx) {
+    short_sig_sweep(c, |c, x, y| {
+        c03_tt(c, (x, 0.0), (y, 0.0));
+        c03_tf(c, (x, 0.0), y);
+    });
     let n = c.budget(10_000_000, 1_000_000_000) / 12;
     let mut cl_tt = Climber::new();
     let mut cl_tf = Climber::new();
@@ -857,6 +901,10 @@ pub fn c04_exact(c: &mut Ctx, a: W) {
 }
 
 pub fn c04(c: &mut Ctx) {
+    short_sig_sweep(c, |c, x, y| {
+        c04_tt(c, (x, 0.0), (y, 0.0));
+        c04_tf(c, (x, 0.0), y);
+    });
     let n = c.budget(10_000_000, 1_000_000_000) / 8;
     let mut cl_tt = Climber::new();
     let mut cl_tf = Climber::new();
@@ -1497,9 +1545,23 @@ pub fn c19(c: &mut Ctx) {
                 tf_in(&mut c.rng, e.max(-400), e.max(-400))
             }
             3 => {
-                // |q| large
-                let e = exp_of(b.0) + c.rng.range(40, 89);
-                tf_in(&mut c.rng, e.min(400), e.min(400))
+                // |q| large; half of the time in the window just below / above 2^k for the k where integer
+                // estimates of the quotient change character (f32/f64/i32/i64 integer limits)
+                if c.rng.coin() {
+                    let k = pk!(c.rng, [24i64, 31, 32, 52, 52, 53, 53, 63, 64, 89]);
+                    let frac = (c.rng.next() >> 11) as f64 * pow2(-53); // [0,1)
+                    let q = if c.rng.coin() { pow2(k) * (1.0 - frac * 0.07) } else { pow2(k) * (1.0 + frac * 0.07) };
+                    let q = if c.rng.coin() { q } else { -q };
+                    let p = w(t(b) * q);
+                    let p = (p.0, step(p.1, c.rng.range(-400, 400)));
+                    let d = w(t(b) * ((c.rng.next() >> 11) as f64 * pow2(-53)));
+                    let s = w(t(p) + t(d));
+                    c.count("quotient_window_cases");
+                    if valid_ref(s.0, s.1) { s } else { p }
+                } else {
+                    let e = exp_of(b.0) + c.rng.range(40, 89);
+                    tf_in(&mut c.rng, e.min(400), e.min(400))
+                }
             }
             4 => b,
             _ => {
